@@ -336,6 +336,9 @@ func Consensus(trees <-chan Trees, cutoff float64) (*Tree, error) {
 		}
 		nbtrees++
 	}
+	if startree == nil {
+		return nil, errors.New("No tree in the input: cannot build a consensus")
+	}
 
 	// We take the bipartitions that are present in more than cutoff trees and less
 	// than or equal the number of trees
